@@ -757,9 +757,11 @@ func (s *slowWriter) Write(p []byte) (int, error) {
 
 // headWriter reports when the response head (or the first body byte) arrives
 type headWriter struct {
-	hdr  http.Header
-	once sync.Once
-	got  chan struct{}
+	hdr     http.Header
+	once    sync.Once
+	got     chan struct{}
+	fonce   sync.Once
+	flushed chan struct{} // closed by the first Flush that reaches this writer
 }
 
 func (h *headWriter) Header() http.Header { return h.hdr }
@@ -768,7 +770,11 @@ func (h *headWriter) Write(p []byte) (int, error) {
 	h.once.Do(func() { close(h.got) })
 	return len(p), nil
 }
-func (h *headWriter) Flush() {}
+func (h *headWriter) Flush() {
+	if h.flushed != nil {
+		h.fonce.Do(func() { close(h.flushed) })
+	}
+}
 
 // streamsTogether opens n exchanges with ONE backend through one forwarder; the backend sends the head and the first
 // bytes of each response and then keeps the stream open (server-sent events, long polls) until all have been looked at.
@@ -779,7 +785,9 @@ func streamsTogether(n int) (heads int, problem string) {
 	backend := httptest.NewServer(http.HandlerFunc(func(w http.ResponseWriter, r *http.Request) {
 		w.Header().Set("Content-Type", "text/event-stream")
 		w.WriteHeader(200)
-		_, _ = w.Write([]byte("data: hello\n\n"))
+		if id, _ := strconv.Atoi(r.URL.Query().Get("id")); id%2 == 0 {
+			_, _ = w.Write([]byte("data: hello\n\n"))
+		} // the odd ones have nothing to say yet: the head alone is flushed (a long poll, an event stream before its first event)
 		w.(http.Flusher).Flush()
 		select {
 		case <-release:
@@ -794,7 +802,7 @@ func streamsTogether(n int) (heads int, problem string) {
 	var wg sync.WaitGroup
 	ctx, cancel := context.WithCancel(context.Background())
 	for i := 0; i < n; i++ {
-		ws[i] = &headWriter{hdr: http.Header{}, got: make(chan struct{})}
+		ws[i] = &headWriter{hdr: http.Header{}, got: make(chan struct{}), flushed: make(chan struct{})}
 		wg.Add(1)
 		go func(i int) {
 			defer wg.Done()
@@ -803,7 +811,11 @@ func streamsTogether(n int) (heads int, problem string) {
 			u := *bu
 			u.Path, u.RawQuery = "/stream", req.URL.RawQuery
 			req.URL = &u
-			fwd.ServeHTTP(ws[i], req)
+			var rw http.ResponseWriter = ws[i]
+			if i%4 >= 2 { // half of them behind the status-recording writer the breaker, the rebalancer and the tracer use
+				rw = utils.NewProxyWriter(ws[i])
+			}
+			fwd.ServeHTTP(rw, req)
 		}(i)
 	}
 	deadline := time.After(4 * time.Second)
@@ -816,6 +828,14 @@ func streamsTogether(n int) (heads int, problem string) {
 				problem = fmt.Sprintf("stream %d had no response head after 4 s although its backend answers at once (%d of the streams before it are open)", i, heads)
 			}
 			deadline = time.After(time.Millisecond)
+		}
+	}
+	// a head is only with the client once it has been flushed: the backend flushed each of them and keeps the stream open
+	for i := 0; i < n && problem == ""; i++ {
+		select {
+		case <-ws[i].flushed:
+		case <-time.After(3 * time.Second):
+			problem = fmt.Sprintf("stream %d: the backend flushed its response head (body bytes sent so far: %d) and keeps the stream open; no Flush reached the client's writer within 3 s (behind ProxyWriter: %v)", i, 13*(1-i%2), i%4 >= 2)
 		}
 	}
 	close(release)
